@@ -1,7 +1,7 @@
 SPECIFICATION Spec
 CONSTANTS
-  NVB = 1
-  InitLog <- EmptyLog
+  NVB = 2
+  InitLog <- HistA
   MaxSeq = 3
   Keys = {"user"}
   Kinds = {"mut", "sys", "adv"}
@@ -9,9 +9,9 @@ CONSTANTS
   BadEvents = FALSE
   FoUuid <- Fo10
   Savers = {"p"}
-  MaxSaves = 0
-  MaxCrash = 0
-  MaxAcks = 1
+  MaxSaves = 2
+  MaxCrash = 1
+  MaxAcks = 2
   MaxGen = 2
   MaxNotify = 0
   MaxEnds = 0
@@ -23,15 +23,15 @@ CONSTANTS
   Info0 <- Info11
   EndCauses = {}
   Hold = FALSE
-  AllowClose = TRUE
+  AllowClose = FALSE
   Rollbacks = FALSE
-  FailSaves = FALSE
+  FailSaves = TRUE
   Focus = TRUE
   Record = FALSE
   ReadOnly = FALSE
-  RM = TRUE
-  Slots = 2
-  RmUuids = {1}
+  RM = FALSE
+  Slots = 1
+  RmUuids = {1, 2}
   Scrapes = FALSE
   HookScrapes = FALSE
   Marking = FALSE
